@@ -22,7 +22,7 @@ VARIABLE vSeq
 \* ---- primaries: keyword + arguments (value, quotable) ----
 Arg(v, q) == [v |-> Cp(v), q |-> q]
 Prims == << [kw |-> Cp("-true"), args |-> <<>>],
-            [kw |-> Cp("-name"), args |-> <<Arg("foo", TRUE)>>],
+            [kw |-> Cp("-name"), args |-> <<Arg("dir\\", TRUE)>>],
             [kw |-> Cp("-uid"), args |-> <<Arg("+5", FALSE)>>],
             [kw |-> Cp("-perm"), args |-> <<Arg("u+x", TRUE)>>],
             [kw |-> Cp("-printf"), args |-> <<Arg("%p\\n", TRUE)>>],
